@@ -206,7 +206,7 @@ func checkC10(c *Ctx) error {
 	// seeded random walks far beyond the exhaustive bound
 	nsim, depth := 40, 20
 	if c.Thorough() {
-		nsim, depth = 1500, 41
+		nsim, depth = 700, 41
 	}
 	_, err = c.mustTLC("Context/sim", TLCOpts{Module: "ContextMC", Cfg: "ContextMC.sim.cfg", Simulate: nsim, Depth: depth, Seed: c.Seed, Timeout: 20 * time.Minute}, false, feed)
 	close(ch)
